@@ -28,7 +28,7 @@ def programs(w):
     """Yield (spec, calls) where each call violates exactly one contract."""
     rng = w.rng
     kinds = ["function", "method", "static", "class", "pget", "pset", "pdel", "init", "new"]
-    forms = ["default", "class", "instance", "factory"]
+    forms = ["default", "class", "instance", "factory", "method"]
     idx = 0
     rounds = 20 if w.tier == "thorough" else 2
     for rnd in range(rounds):
@@ -53,8 +53,8 @@ def programs(w):
                             if role == "post":
                                 extra += ["result", "OLD"]
                             if role == "inv":
-                                subsets = [[], ["self"]] if form == "factory" else [["self"]]
-                            elif form == "factory":
+                                subsets = [[], ["self"]] if form in ("factory", "method") else [["self"]]
+                            elif form in ("factory", "method"):
                                 pool = names + extra
                                 subsets = [list(c) for r in range(len(pool) + 1) for c in itertools.combinations(pool, r)]
                                 if len(subsets) > (24 if w.tier == "quick" else 64):
@@ -71,6 +71,7 @@ def programs(w):
                                 for dk, c in m["decos"]:
                                     if dk in ("pre", "post"):
                                         c["eargs"] = list(eargs)
+                                        c["edefaults"] = [n for n in eargs if rng.random() < 0.35]
                                         if "OLD" in c["args"] and not n_snap:
                                             c["args"].remove("OLD")
                                     if dk == "snap":
@@ -111,7 +112,7 @@ def judge(w, loaded, model, contracts, call, tid, meta) -> None:
     hub = loaded.hub
     c = contracts[tid]
     form = c.get("err", "default")
-    for mode in (("normal", "nonexc") if form == "factory" else ("normal",)):
+    for mode in (("normal", "nonexc") if form in ("factory", "method") else ("normal",)):
         truth = {tid: ["F", w.rng.randrange(11)]}
         if mode == "nonexc":
             truth["error:" + tid] = "nonexc"
@@ -157,7 +158,7 @@ def judge(w, loaded, model, contracts, call, tid, meta) -> None:
             if exc is not hub.errinsts.get(tid):
                 w.violation("C09/instance-error-identity", "expected the very instance given as error, got {}: {!r}".format(
                     type(exc).__name__, exc), case, detail)
-        elif form == "factory":
+        elif form in ("factory", "method"):
             w.count("factory_calls", len(err_events))
             made = hub.factory_made.get(tid, [])
             if len(err_events) != 1:
